@@ -597,3 +597,26 @@ Proof.
     split; [apply render_canonical; apply dec_eq_sym; exact Ha|apply dec_eq_sym; exact Ha].
   - intros [E Hd]. subst s. apply render_canonical. exact Hd.
 Qed.
+
+(* ------------------------------------------------------------------------------------------------ *)
+(* the stored JSON form of a number: what MarshalJSON writes, UnmarshalJSON reads back as the same number *)
+Lemma num_unmarshal_marshal : forall d, (int32_min <= dexp d)%Z ->
+  exists d', num_unmarshal (num_marshal d) = Some d' /\ dec_eq d' d.
+Proof.
+  intros d Hd. unfold num_unmarshal, num_marshal, new_from_string.
+  destruct (render_form d) as (neg & ip & fp & Hr & Hne & Hip & Hfp & Heq & Hb).
+  destruct (number_form_parts in_int32 neg ip fp Hne Hip Hfp) as (_ & _ & P). cbv zeta in P.
+  rewrite Hr, P.
+  assert (Hin : in_int32 (- Z.of_nat (length fp)) = true).
+  { unfold in_int32, int32_min, int32_max in *. apply andb_true_intro; split; apply Z.leb_le; lia. }
+  rewrite Hin. cbn [dexp].
+  assert (Hlen : (length fp <= length (sign_text neg ++ ip ++ frac_text fp))%nat).
+  { rewrite !app_length. destruct fp; cbn [frac_text length]; lia. }
+  assert (Hok : stored_exp_ok (length (sign_text neg ++ ip ++ frac_text fp)) (- Z.of_nat (length fp)) = true).
+  { unfold stored_exp_ok. apply andb_true_intro; split; apply Z.leb_le; lia. }
+  rewrite Hok. eexists. split; [reflexivity|exact Heq].
+Qed.
+
+(* a short token in exponent notation with a huge exponent is refused (the reason the limit exists) *)
+Example num_unmarshal_huge_exponent : num_unmarshal [49; 101; 51; 48; 48; 48; 48; 48; 48; 48; 48]%N = None.
+Proof. vm_compute. reflexivity. Qed.
